@@ -58,6 +58,8 @@ def one_run(params):
         k = sim.k
         kind = params["kind"]
         planted = {}
+        unmatched_dgrams = {}
+        k.keep_snaps = True
         state = {"count": {}, "triggered": False, "nplant": 0, "hostile": 0, "classes": set(), "steps": set()}
         ctx = {"downenc": "T", "password": sim.password, "userid": 3}
 
@@ -164,6 +166,12 @@ def one_run(params):
                         recent.add(struct.unpack_from(">H", ev[3]["data"], 0)[0])
                 f = mk_frame()
                 body = bytes([0x80, (rng.randrange(8) << 5) | 1]) + zlib.compress(f)
+                if rng.random() < 0.35:
+                    # a bare data header announcing some other downstream sequence number / fragment (what a stale answer of
+                    # an idle moment looks like), or the first fragment of a packet that is never completed
+                    body = bytes([0x80 | (rng.randrange(8) << 4) | rng.randrange(16), (rng.randrange(8) << 5) | (rng.randrange(16) << 1)])
+                    if rng.random() < 0.4:
+                        body += zlib.compress(f)[:rng.randint(1, 20)]
                 how = rng.randrange(2)
                 labels, qt, _cl = q.qd[0]
                 enc = ctx["downenc"] if qt not in (proto.T_NULL, proto.T_PRIVATE) else "T"
@@ -183,6 +191,7 @@ def one_run(params):
                     except ValueError:
                         return
                 planted[f] = (how, bad_id if how == 0 else None)
+                unmatched_dgrams[bytes(d)] = (how, bad_id if how == 0 else None)
                 out["stats"]["planted_unmatched"] += 1
             if d is None:
                 return
@@ -227,6 +236,34 @@ def one_run(params):
             return out
         if h.startswith("exit:"):
             out["stats"]["client_exits"] = 1
+        # Replies that match none of the client's recent queries are ignored: across every select() iteration in which the
+        # client received nothing but such replies (and read nothing from its tun), its reassembly state and its upstream
+        # cursor - as shown by the guarded hook in client.c - are what they were before.
+        prev_state = None
+        got = []
+        sent_ids = []
+        for ev in k.log:
+            if ev[2] != "cli0":
+                continue
+            if ev[1] == "send" and len(ev[3]["data"]) >= 2 and ev[3]["data"][:3] != proto.RAW_MAGIC:
+                sent_ids.append(struct.unpack_from(">H", ev[3]["data"], 0)[0])
+            elif ev[1] == "recv":
+                d = bytes(ev[3]["data"])
+                um = unmatched_dgrams.get(d)
+                ok_um = um is not None and not (um[0] == 0 and um[1] in sent_ids[-12:])
+                got.append("unmatched" if ok_um else "other")
+            elif ev[1] == "tun_read":
+                got.append("other")
+            elif ev[1] == "wait" and "cstate" in ev[3]:
+                cur = tuple(ev[3]["cstate"][:7])
+                if prev_state is not None and got and all(g == "unmatched" for g in got) and ev[3]["cstate"][11] == 1:
+                    out["stats"]["unmatched_only_iterations_judged"] = out["stats"].get("unmatched_only_iterations_judged", 0) + 1
+                    if cur != prev_state and not out["violations"]:
+                        out["violations"].append(("C06:unmatched-reply-changed-transfer-state",
+                                                  "handling only replies that match none of its recent queries changed the client's state (in seq/frag/len, out seq/frag/len/offset) from %r to %r"
+                                                  % (prev_state, cur), dict(wit, time_us=ev[0])))
+                prev_state = cur
+                got = []
         # a raw-mode frame is self-contained: whatever the client writes to its tun because of a raw datagram must be
         # exactly what that datagram's own bytes inflate to (runts, foreign commands and cut-off streams deliver nothing)
         rcvd = {}
